@@ -10,7 +10,8 @@
        '#S' lines  lead "#S" gap t1 g1 ... tn gn  in any order, with duplicates, with any Python-isspace
        white space as lead / gap / trail (the last gap may be empty: last line without newline);
      - white-space-only lines before the count line; the count token is anything int() maps to b_n
-       (parse_int t = IOk n: [+-]?digits); zero-vertex blocks (anything non-'#' may follow the count);
+       (parse_int t = IOk n: [+-]?digits); zero-vertex blocks (no constraint, only blank lines - for read_graph on its
+       own also comment lines - after the count: since fc0735f the code validates them);
      - edge lines  lead u gu v gv w gw  with parse_float w = FOk x ([+-]?digits[.digits]?), repeated edges,
        blank lines (and, for read_graph on its own, comment lines) between them.
    NOT modelled: the stored width G.graph["w"] (stDiGraph.get_width: networkx condensation + network simplex).
@@ -157,17 +158,54 @@ Theorem C20_first_failing_block_decides : forall pre good B rest e,
 Proof. exact corrupt_block_rejected. Qed.
 Print Assumptions C20_first_failing_block_decides.
 
-(* ---------------------------------------------------------------- the deviation of the unchanged code *)
-(* The rejection statements need b_n <> 0: with a 0 count the code returns before any validation.  Witnesses
-   (replayed on the implementation by the engine, known finding read_graph:n==0:no-validation):
-   "#S a b / 0" is accepted with a constraint although the graph has no edge; "# g / 0 / a b" (malformed edge line)
-   and "# g / 0 / a b x" (non-numeric weight) are accepted. *)
-Theorem C20_zero_count_skips_validation_refuted :
-  (exists lines g c p, read_graphs lines = FRes (Ok [g]) /\ In c (gcons g) /\ In p c /\ ginf g = None) /\
-  (exists lines l g, In l lines /\ bad_edge_line l /\ read_graphs lines = FRes (Ok [g])) /\
-  (exists lines l g, In l lines /\ bad_weight_line l /\ read_graphs lines = FRes (Ok [g])).
-Proof. exact zero_count_skips_validation. Qed.
-Print Assumptions C20_zero_count_skips_validation_refuted.
+(* ---------------------------------------------------------------- blocks that declare 0 vertices (validated since fc0735f) *)
+(* a constraint, or any line after the count that is neither blank nor a '#' line (e.g. a damaged or even a
+   well-formed edge line), makes a zero-vertex block fail *)
+Theorem C20_zero_block_rejected : forall pre good b body rest,
+  Forall (fun x => is_hdr x = false) pre -> Forall wf_fblock good ->
+  wf_head b -> b_items b <> [] -> parse_int (b_ctok b) = IOk 0%Z ->
+  Forall (fun x => is_hdr x = false) body ->
+  spec_cons (b_items b) <> [] \/ (exists l, In l body /\ unskipped l) ->
+  hdr_or_nil rest ->
+  exists e, read_graphs (pre ++ concat (map render_block good) ++ (map render_hitem (b_items b) ++ b_blanks b ++ count_line b :: body) ++ rest)
+            = FRes (Error e) /\ (e = EZeroHasConstraints \/ e = EZeroHasEdges).
+Proof. exact zero_block_in_file. Qed.
+Print Assumptions C20_zero_block_rejected.
+Theorem C20_zero_block_rejected_read_graph : forall b body,
+  wf_head b -> parse_int (b_ctok b) = IOk 0%Z ->
+  spec_cons (b_items b) <> [] \/ (exists l, In l body /\ unskipped l) ->
+  exists e, read_graph (map render_hitem (b_items b) ++ b_blanks b ++ count_line b :: body) = Error e /\
+            (e = EZeroHasConstraints \/ e = EZeroHasEdges).
+Proof. exact zero_block_rejected. Qed.
+Print Assumptions C20_zero_block_rejected_read_graph.
+
+(* hence the rejection clauses hold whatever the count says *)
+Theorem C20_corrupt_edge_line_rejected_any_count : forall pre good b body_pre l post rest,
+  Forall (fun x => is_hdr x = false) pre -> Forall wf_fblock good ->
+  wf_head b -> b_items b <> [] -> parse_int (b_ctok b) = IOk (b_n b) ->
+  Forall (wf_bitem false) body_pre -> bad_edge_line l \/ bad_weight_line l ->
+  Forall (fun x => is_hdr x = false) post -> hdr_or_nil rest ->
+  exists e, read_graphs (pre ++ concat (map render_block good) ++
+               (map render_hitem (b_items b) ++ b_blanks b ++ count_line b :: (map render_bitem body_pre ++ l :: post)) ++ rest)
+            = FRes (Error e).
+Proof. exact corrupt_line_in_file_any_count. Qed.
+Print Assumptions C20_corrupt_edge_line_rejected_any_count.
+Theorem C20_missing_constraint_edge_rejected_any_count : forall pre good b rest,
+  Forall (fun x => is_hdr x = false) pre -> Forall wf_fblock good ->
+  wf_head b -> b_items b <> [] -> parse_int (b_ctok b) = IOk (b_n b) ->
+  (b_n b <> 0%Z -> Forall (wf_bitem false) (b_body b)) ->
+  Forall (fun x => is_hdr x = false) (map render_bitem (b_body b)) ->
+  (exists c p, In c (spec_cons (b_items b)) /\ In p c /\ ~ In p (map fst (listed (b_body b)))) ->
+  hdr_or_nil rest ->
+  exists e, read_graphs (pre ++ concat (map render_block good) ++ render_block b ++ rest) = FRes (Error e).
+Proof. exact missing_constraint_edge_in_file_any_count. Qed.
+Print Assumptions C20_missing_constraint_edge_rejected_any_count.
+Theorem C20_corrupt_edge_line_rejected_any_count_read_graph : forall cm b pre l post,
+  wf_head b -> parse_int (b_ctok b) = IOk (b_n b) ->
+  Forall (wf_bitem cm) pre -> bad_edge_line l \/ bad_weight_line l ->
+  exists e, read_graph (map render_hitem (b_items b) ++ b_blanks b ++ count_line b :: (map render_bitem pre ++ l :: post)) = Error e.
+Proof. exact bad_line_rejected_any_count. Qed.
+Print Assumptions C20_corrupt_edge_line_rejected_any_count_read_graph.
 
 (* ---------------------------------------------------------------- non-vacuity *)
 Definition s (x : string) : str := map N_of_ascii (list_ascii_of_string x).
@@ -230,8 +268,8 @@ Proof.
   split; [|repeat constructor].
   constructor; [|constructor; [|constructor; [|constructor]]].
   - (* block 1 *)
-    split; [|split; [discriminate|repeat constructor]].
-    split; [|split; [reflexivity|right]].
+    split; [|discriminate].
+    split; [|split; [reflexivity|right; split; [discriminate|]]].
     + split; [|split; [ws|split; [ws|split; [ws|split; [discriminate|split; [trm|cbn; discriminate]]]]]].
       constructor; [|constructor; [|constructor; [|constructor; [|constructor; [|constructor]]]]].
       * cbn. split; [ws|split; [ws|split; [ws|split; [trm|discriminate]]]].
@@ -249,13 +287,13 @@ Proof.
       * src (s "a") (s "a", s "b", d false 15 1).
       * src (s "c") (s "b", s "c", d false 2 0).
   - (* block 2: zero vertices *)
-    split; [|split; [discriminate|constructor]].
-    split; [|split; [reflexivity|left; reflexivity]].
+    split; [|discriminate].
+    split; [|split; [reflexivity|left; split; [reflexivity|split; [reflexivity|constructor]]]].
     split; [|split; [ws|split; [ws|split; [ws|split; [discriminate|split; [trm|cbn; discriminate]]]]]].
     constructor; [|constructor]. cbn. split; [ws|split; [ws|split; [ws|split; [trm|discriminate]]]].
   - (* block 3 *)
-    split; [|split; [discriminate|repeat constructor]].
-    split; [|split; [reflexivity|right]].
+    split; [|discriminate].
+    split; [|split; [reflexivity|right; split; [discriminate|]]].
     + split; [|split; [ws|split; [ws|split; [ws|split; [discriminate|split; [trm|cbn; discriminate]]]]]].
       constructor; [|constructor]. cbn [wf_hitem]. split; [ws|split; [ws|]]. cells.
     + split; [|split; [|split]].
@@ -284,5 +322,10 @@ Example C20_ex_corruptions_rejected :
   read_graphs (set_line 7 (s " three" ++ nl) ex_file) = FRes (Error EBadCount) /\
   read_graphs (set_line 7 nl ex_file) = FRes (Error EBadCount) /\
   read_graphs (set_line 4 (s "#S a c" ++ nl) ex_file) = FRes (Error EMissingConstraintEdge) /\
-  read_graphs (firstn 13 ex_file) = FRes (Error EMissingCount).
+  read_graphs (firstn 13 ex_file) = FRes (Error EMissingCount) /\
+  (* block 2 declares 0 vertices: an edge line or a '#S' constraint in it is rejected (accepted before fc0735f) *)
+  read_graphs (firstn 14 ex_file ++ [s "a b 1" ++ nl] ++ skipn 14 ex_file) = FRes (Error EZeroHasEdges) /\
+  read_graphs (firstn 14 ex_file ++ [s "a b" ++ nl] ++ skipn 14 ex_file) = FRes (Error EZeroHasEdges) /\
+  read_graphs (set_line 12 (s "#S a b" ++ nl) ex_file) = FRes (Error EZeroHasConstraints) /\
+  read_graphs [s "#S a b" ++ nl; s "0" ++ nl] = FRes (Error EZeroHasConstraints).
 Proof. repeat split; vm_compute; reflexivity. Qed.
